@@ -68,7 +68,15 @@ def oracle_grant_order(case, lines, runner=None):
         prev = snap
     return fails[:3]
 
+def oracle_release(case, lines, runner=None):
+    """after release() / leaving the with-block a request neither holds a slot nor waits for one"""
+    for n in runner.notes:
+        if n[0] == 'leaked':
+            return [{'what': f'request {n[1]} still occupies or awaits resource {n[2]} right after it was released / its with-block was left at {n[3]}',
+                     'signature': 'res-slot-leaked'}]
+    return []
+
 def run(ctx):
-    return kprops.run_kernel(ctx, 'C06', SPEC, 1500, 40000, oracles=[oracle_capacity_and_idle, oracle_grant_order],
+    return kprops.run_kernel(ctx, 'C06', SPEC, 1500, 40000, oracles=[oracle_capacity_and_idle, oracle_grant_order, oracle_release],
                              nontrivial=lambda c, lines: any('q[' in l and 'q[]' not in l for l in lines),
                              rule='seeded request/hold/release/cancel/with-exit histories of 2-8 processes on 1-2 resources of the three classes; non-trivial = distinct history in which some request had to queue')
